@@ -38,6 +38,10 @@ func ranges(n int) []rng {
 
 // nameLaws: all pair clauses on two real operands with reference values oa, ob.
 func nameLaws(col *collector, as *aliasStats, w int64, a, b enc.Name, oa, ob oname, how string, rp func() any) {
+	nameLawsSfx(col, as, w, a, b, oa, ob, how, rp, aliasSfx)
+}
+
+func nameLawsSfx(col *collector, as *aliasStats, w int64, a, b enc.Name, oa, ob oname, how string, rp func() any, aliasSfx string) {
 	oc, where := oCmp(oa, ob)
 	oeq := oc == 0
 	desc := func() string { return fmt.Sprintf("%s; a=%s b=%s", how, oa.Short(), ob.Short()) }
@@ -163,4 +167,10 @@ func aliasedPhase(col *collector, as *aliasStats, phase int64, names []oname, de
 	return enum.Range(int64(len(names)), deadline, func(i int64) {
 		aliasedName(col, as, phase<<50|i, names[i])
 	})
+}
+
+// nameLawsPlain: the pair laws on two names held in SEPARATE storage (used for names too large for
+// an all-pairs universe).
+func nameLawsPlain(col *collector, as *aliasStats, w int64, oa, ob oname, rp func() any) {
+	nameLawsSfx(col, as, w, real(oa, 0), real(ob, 1), oa, ob, "separate storage", rp, countClass(oa))
 }
